@@ -7,12 +7,14 @@ package types
 
 import (
 	"bytes"
+	"context"
 	"encoding/binary"
 	"encoding/hex"
 	"encoding/json"
 	"math/big"
 	"os"
 	"strconv"
+	"strings"
 	"testing"
 	"time"
 
@@ -66,7 +68,7 @@ func vrBe64(v uint64) []byte {
 	return b
 }
 
-var vrStrings = []string{"", "a", "init1q6jhwnarkw2j5qqgx3qlu20k8nrdglft5ksr0g", "uinit", "l2/0123", "INIT1Q6JHWNARKW2J5QQGX3QLU20K8NRDGLFT5KSR0G", "ibc/27394FB092D2ECCD56123C74F36E4C1F926001CEADA9CA97EA622B25F41E5EB2", "1stake", "stake"}
+var vrStrings = []string{"", "a", "init1q6jhwnarkw2j5qqgx3qlu20k8nrdglft5ksr0g", "uinit", "l2/0123", "INIT1Q6JHWNARKW2J5QQGX3QLU20K8NRDGLFT5KSR0G", "ibc/27394FB092D2ECCD56123C74F36E4C1F926001CEADA9CA97EA622B25F41E5EB2", "1stake", "stake", strings.Repeat("init1verylongsender", 12), strings.Repeat("init1verylongsender", 12) + "x"}
 
 func vrNode(a, b []byte) []byte {
 	if bytes.Compare(a, b) <= 0 {
@@ -113,8 +115,8 @@ func TestVerifReplay_Hashes(t *testing.T) {
 	}
 	// withdrawal leaf
 	for _, id := range ids[:4] {
-		for _, s := range vrStrings[:6] {
-			for _, r := range vrStrings[:6] {
+		for _, s := range append(append([]string(nil), vrStrings[:6]...), vrStrings[len(vrStrings)-2:]...) {
+			for _, r := range append(append([]string(nil), vrStrings[:6]...), vrStrings[len(vrStrings)-1]) {
 				for _, am := range []uint64{amount, 0, 1, ^uint64(0)} {
 					inner := vrSha3(vrBe64(id), vrBe64(seq), vrSha3([]byte(s)), vrSha3([]byte(r)), vrSha3([]byte("uinit")), vrBe64(am))
 					want := vrSha3(inner)
@@ -216,4 +218,147 @@ func TestVerifReplay_DepositValidate(t *testing.T) {
 		return
 	}
 	t.Logf("REPLAY-NOT-CONFIRMED: amount %s handled as required (err=%v)", amt, err)
+}
+
+// MsgFinalizeTokenWithdrawal.Validate (C03, C04): the verdict of the REAL function is compared with the property's own
+// notion of a well-formed claim (valid signer and recipient, non-empty L2 sender of ANY length, valid positive coin,
+// non-zero ids, 1-byte version, 32-byte roots and proof elements). Lengths and integers come from the counterexample;
+// boundary lengths are probed as well.
+func TestVerifReplay_ClaimValidate(t *testing.T) {
+	in := vrInput(t)
+	ac := address.NewBech32Codec("init")
+	a, _ := ac.BytesToString(bytes.Repeat([]byte{1}, 20))
+	b, _ := ac.BytesToString(bytes.Repeat([]byte{2}, 20))
+	rep := func(n uint64) []byte {
+		if n > 1<<16 {
+			n = 1 << 16
+		}
+		return bytes.Repeat([]byte{'x'}, int(n))
+	}
+	type shape struct{ from, version, root, hash, proofs, proofLen, seq, bridge, index, amount uint64 }
+	base := shape{from: vrU64(in, "fromLen", 5), version: vrU64(in, "versionLen", 1), root: vrU64(in, "rootLen", 32), hash: vrU64(in, "hashLen", 32),
+		proofs: vrU64(in, "proofs", 2), proofLen: vrU64(in, "proofLen", 32), seq: vrU64(in, "sequence", 1), bridge: vrU64(in, "bridgeId", 1), index: vrU64(in, "outputIndex", 1), amount: vrU64(in, "amount", 1)}
+	shapes := []shape{base}
+	ok := shape{from: 5, version: 1, root: 32, hash: 32, proofs: 2, proofLen: 32, seq: 1, bridge: 1, index: 1, amount: 1}
+	for _, n := range []uint64{0, 1, 20, 255, 256, 300, 4096} {
+		s := ok
+		s.from = n
+		shapes = append(shapes, s)
+	}
+	for _, n := range []uint64{0, 1, 2, 31, 32, 33, 64} {
+		s1, s2, s3, s4 := ok, ok, ok, ok
+		s1.version, s2.root, s3.hash, s4.proofLen = n, n, n, n
+		shapes = append(shapes, s1, s2, s3, s4)
+	}
+	for _, n := range []uint64{0, 1, 31, 32, 33, 64, 200} {
+		s := ok
+		s.proofs = n
+		shapes = append(shapes, s)
+	}
+	confirmed := false
+	for _, s := range shapes {
+		if s.proofs > 512 {
+			s.proofs = 512
+		}
+		msg := MsgFinalizeTokenWithdrawal{Sender: a, BridgeId: s.bridge, OutputIndex: s.index, Sequence: s.seq, From: string(rep(s.from)), To: b,
+			Amount: sdk.Coin{Denom: "uinit", Amount: math.NewIntFromUint64(s.amount)}, Version: rep(s.version), StorageRoot: rep(s.root), LastBlockHash: rep(s.hash)}
+		for i := uint64(0); i < s.proofs; i++ {
+			msg.WithdrawalProofs = append(msg.WithdrawalProofs, rep(s.proofLen))
+		}
+		want := s.from > 0 && s.version == 1 && s.root == 32 && s.hash == 32 && (s.proofs == 0 || s.proofLen == 32) && s.seq != 0 && s.bridge != 0 && s.index != 0 && s.amount > 0
+		err := msg.Validate(ac)
+		if (err == nil) != want {
+			confirmed = true
+			t.Errorf("REPLAY-CONFIRMED: MsgFinalizeTokenWithdrawal.Validate on the real code returns %v for a claim with from=%d bytes, version=%d, storage root=%d, block hash=%d, %d proof elements of %d bytes, sequence=%d, bridge=%d, output index=%d, amount=%d; the property calls this claim %s",
+				err, s.from, s.version, s.root, s.hash, s.proofs, s.proofLen, s.seq, s.bridge, s.index, s.amount, map[bool]string{true: "well-formed (it must be accepted)", false: "malformed (it must be rejected)"}[want])
+		}
+	}
+	if !confirmed {
+		t.Log("REPLAY-NOT-CONFIRMED: Validate agrees with the property's notion of a well-formed claim on the model's shape and on the boundary shapes")
+	}
+}
+
+// BridgeHooks fan-out wrapper (C19): every member receives the same notification with the same arguments, in order;
+// the first failure is returned and stops the fan-out.
+type vrHook struct {
+	log  *[]string
+	name string
+	fail string
+}
+
+func (h vrHook) rec(m string, id uint64, cfg BridgeConfig) error {
+	*h.log = append(*h.log, h.name+":"+m+":"+strconv.FormatUint(id, 10)+":"+cfg.Challenger)
+	if h.fail == m {
+		return ErrInvalidBridgeId
+	}
+	return nil
+}
+func (h vrHook) BridgeCreated(_ context.Context, id uint64, c BridgeConfig) error { return h.rec("BridgeCreated", id, c) }
+func (h vrHook) BridgeChallengerUpdated(_ context.Context, id uint64, c BridgeConfig) error {
+	return h.rec("BridgeChallengerUpdated", id, c)
+}
+func (h vrHook) BridgeProposerUpdated(_ context.Context, id uint64, c BridgeConfig) error {
+	return h.rec("BridgeProposerUpdated", id, c)
+}
+func (h vrHook) BridgeBatchInfoUpdated(_ context.Context, id uint64, c BridgeConfig) error {
+	return h.rec("BridgeBatchInfoUpdated", id, c)
+}
+func (h vrHook) BridgeMetadataUpdated(_ context.Context, id uint64, c BridgeConfig) error {
+	return h.rec("BridgeMetadataUpdated", id, c)
+}
+
+func TestVerifReplay_BridgeHooksFanout(t *testing.T) {
+	confirmed := false
+	methods := []string{"BridgeCreated", "BridgeChallengerUpdated", "BridgeProposerUpdated", "BridgeBatchInfoUpdated", "BridgeMetadataUpdated"}
+	cfg := BridgeConfig{Challenger: "challenger-x"}
+	for _, m := range methods {
+		for n := 0; n <= 3; n++ {
+			for failAt := -1; failAt < n; failAt++ {
+				var log []string
+				var hooks BridgeHooks
+				for i := 0; i < n; i++ {
+					h := vrHook{log: &log, name: strconv.Itoa(i)}
+					if i == failAt {
+						h.fail = m
+					}
+					hooks = append(hooks, h)
+				}
+				var err error
+				switch m {
+				case "BridgeCreated":
+					err = hooks.BridgeCreated(context.Background(), 7, cfg)
+				case "BridgeChallengerUpdated":
+					err = hooks.BridgeChallengerUpdated(context.Background(), 7, cfg)
+				case "BridgeProposerUpdated":
+					err = hooks.BridgeProposerUpdated(context.Background(), 7, cfg)
+				case "BridgeBatchInfoUpdated":
+					err = hooks.BridgeBatchInfoUpdated(context.Background(), 7, cfg)
+				case "BridgeMetadataUpdated":
+					err = hooks.BridgeMetadataUpdated(context.Background(), 7, cfg)
+				}
+				var want []string
+				last := n
+				if failAt >= 0 {
+					last = failAt + 1
+				}
+				for i := 0; i < last; i++ {
+					want = append(want, strconv.Itoa(i)+":"+m+":7:challenger-x")
+				}
+				if (err != nil) != (failAt >= 0) || len(log) != len(want) {
+					confirmed = true
+					t.Errorf("REPLAY-CONFIRMED: BridgeHooks.%s over %d hooks (hook %d failing) returned %v after the calls %v; expected %v", m, n, failAt, err, log, want)
+					continue
+				}
+				for i := range want {
+					if log[i] != want[i] {
+						confirmed = true
+						t.Errorf("REPLAY-CONFIRMED: BridgeHooks.%s delivered %q to member %d instead of %q", m, log[i], i, want[i])
+					}
+				}
+			}
+		}
+	}
+	if !confirmed {
+		t.Log("REPLAY-NOT-CONFIRMED: the fan-out wrapper forwards every notification unchanged, in order, stopping at the first failure")
+	}
 }
